@@ -176,6 +176,7 @@ class SimFS:
         self.torn_frac = None  # for write events: fraction of bytes applied
         self.crash_event = None
         self.err_at = {}  # mutation index -> errno
+        self.err_kinds = ("write", "creat", "trunc", "mkdir", "rename", "replace")
         self.err_fired = []
         self.read_err_at = {}  # event index -> errno (read side)
         self.hook = None  # hook(kind, paths, mut): scheduler yield point
@@ -218,10 +219,14 @@ class SimFS:
                 off = int(self.torn_frac * nbytes)
                 return max(0, min(nbytes, off))
             raise SimCrash("crash before %s %s" % (kind, paths))
-        e = self.err_at.pop(self.mut_seq, None)
-        if e is not None:
-            self.err_fired.append((kind, paths, e))
-            raise OSError(e, os.strerror(e), paths[0])
+        if self.err_at and kind in self.err_kinds:
+            due = min(self.err_at)
+            if self.mut_seq >= due:
+                # an armed I/O error fires at the first eligible event at or
+                # after its index (ENOSPC on an unlink would be nonsense)
+                e = self.err_at.pop(due)
+                self.err_fired.append((kind, paths, e))
+                raise OSError(e, os.strerror(e), paths[0])
         return None
 
     def _call(self, name, *a, **kw):
